@@ -321,6 +321,11 @@ def run_recording(chk, model):
             e = rng.sample(pool, rng.randint(0, 8))
             roots = [] if rng.random() < 0.25 else rng.sample(rootc, rng.randint(1, 3))
             runs.append((e, roots))
+        if h == 0:
+            # fixed boundary history (every seed): one-component paths with doubled/tripled leading separators, under roots that are
+            # separators only and under canonical roots
+            L = ["//a", "/b", "//a/b", "///ab", "/a.o/", "ab", "", "/a/b/c", "//b/"]
+            runs = [(L, []), ([], ["/"]), (L, ["/a"]), ([], ["//"]), (L, []), ([], ["/a", "/ab/"]), (L, ["a"]), (["/b"], ["//a", "/b/"]), (L, []), ([], [])]
         def fl(l): return "." if not l else ",".join(hx(x.encode()) for x in l)
         rc, out, err = vlib.run_lines(model, ["stale_history NONE " + " ".join(fl(e) + "/" + fl(r) for (e, r) in runs)])
         pred = [[] if f == "." else [vlib.unhx(x).decode() for x in f.split(",")] for f in out[0].split(" ")]
